@@ -306,6 +306,44 @@ func scripts() map[string]Script {
 			st = append(st, blk(6*time.Second, fee), blk(6*time.Second, fee), blk(6*time.Second, fee))
 			return st
 		},
+		// shrunk-share-total: the only validator holding an asset is slashed by 90 % for downtime four times
+		// (jailed, unjailed, absent again): the asset's validator-share total shrinks to half a share while all 500
+		// tokens stay staked; then stake arrives on other validators, part of it leaves again, rewards are claimed
+		"shrunk-share-total": func(g *Gen, c *Config) []Step {
+			c.Assets = []AssetSpec{
+				{Denom: "aaa", Weight: "0.000001", WMin: "0", WMax: "10", TakeRate: "0", StartDelay: -int64(time.Hour), Mag: "1000000"},
+				{Denom: "bbb", Weight: "0.000001", WMin: "0", WMax: "10", TakeRate: "0", StartDelay: -int64(time.Hour), Mag: "1000000"},
+			}
+			c.ValStake = []int64{30_000_000_000, 40_000_000_000, 50_000_000_000}
+			c.Fund = "1000000000"
+			c.SlashDowntime = "0.9"
+			c.SignedWindow = 4
+			c.JailNs = int64(10 * time.Second)
+			c.UnbondingNs = int64(time.Hour)
+			fee := "2000000stake"
+			st := []Step{
+				{K: "delegate", A: 0, V: 1, Den: "aaa", Amt: "500"},
+				{K: "delegate", A: 1, V: 2, Den: "bbb", Amt: "700000"},
+				blk(6*time.Second, fee), blk(6*time.Second, fee),
+			}
+			for round := 0; round < 4; round++ {
+				for i := 0; i < 6; i++ {
+					st = append(st, Step{K: "block", Block: &BlockSpec{DtNs: int64(6 * time.Second), Fees: fee, Absent: []int{1}}})
+				}
+				st = append(st, blk(20*time.Second, fee), Step{K: "unjail", V: 1}, blk(6*time.Second, fee), blk(6*time.Second, fee))
+			}
+			st = append(st,
+				Step{K: "delegate", A: 2, V: 2, Den: "aaa", Amt: "100000"},
+				blk(6*time.Second, fee),
+				Step{K: "delegate", A: 4, V: 3, Den: "aaa", Amt: "7"},
+				Step{K: "claim", A: 0, V: 1, Den: "aaa"},
+				Step{K: "undelegate", A: 2, V: 2, Den: "aaa", Amt: "40000"},
+				blk(6*time.Second, fee),
+				Step{K: "redelegate", A: 2, V: 2, W: 1, Den: "aaa", Amt: "1000"},
+				blk(6*time.Second, fee),
+			)
+			return st
+		},
 		// drain-and-refill: two assets on the same validators, non-integer share ratios after a slash, every
 		// delegator exits one asset completely (through different validators, leaving rounding dust behind),
 		// the asset's staked total returns to zero, then it is staked again
@@ -434,6 +472,16 @@ func scripts() map[string]Script {
 					st = append(st, Step{K: "gov_delete", A: 1, Gov: spec("auth", "bnd")})
 				}
 			}
+			// a negative change interval must never be stored, not even with rate 1 ("no decay") where it looks
+			// harmless: a later update to a rate != 1 that keeps the interval would make it effective
+			neg := func(k, rate string) Step {
+				sp := spec("auth", "neg")
+				sp.Rate, sp.Interval, sp.Boundary = rate, -int64(time.Hour), true
+				return Step{K: k, A: 1, Gov: sp}
+			}
+			st = append(st, neg("gov_create", "1"), neg("gov_update", "1.5"),
+				blk(2*time.Hour, "1000000stake"), blk(6*time.Second, "1000000stake"),
+				Step{K: "gov_delete", A: 1, Gov: spec("auth", "neg")})
 			st = append(st, blk(6*time.Second, "1000000stake"))
 			for _, nv := range []bool{false, true} {
 				a, b, d := spec("auth", "eee"), spec("auth", "eee"), spec("auth", "eee")
@@ -629,11 +677,11 @@ func valueDefs() []*CheckDef {
 		},
 		{
 			Prop: "C04",
-			Scripts: []string{"drain-refill", "drain-exact", "drain-slashed", "drain-slashed-2"},
+			Scripts: []string{"drain-refill", "drain-exact", "drain-slashed", "drain-slashed-2", "shrunk-share-total"},
 			Runs: []ProfRun{{"core", 64, 1200}, {"queue", 32, 600}, {"extreme", 32, 600}},
 			Mons: func(r *Runner) []Monitor { return []Monitor{NewMonC04(r)} },
 			ProbeEvery: 2,
-			Required: []string{"C04.delegate/", "C04.undelegate/", "C04.redelegate/", "C04.claim/", "C04.round-trip/"},
+			Required: []string{"C04.delegate/", "C04.undelegate/", "C04.redelegate/", "C04.claim/", "C04.round-trip/", "C04.asset-share-total-below-one"},
 			Rule: "every successful delegate/undelegate/redelegate/claim of seeded histories (share/token ratios after take-rate deductions and slashes, amounts from 1 unit against huge totals and vice versa): exact-rational value of EVERY position before and after; actor +-amount, everybody else 0, positions of other assets exactly unchanged, within one base unit plus the 18-digit budget scaled by the share price; reported values sum <= staked total + one per position after every step; round-trip probe on a branch (fresh delegation's reported balance <= amount); a situation class = (operation, magnitude class, number of positions)",
 			Assumptions: commonAssumptions,
 		},
